@@ -48,7 +48,7 @@ CLAIMED = {
              'construction, outside the trampoline loop; the depth test precedes every declaration evaluation; height = parent+1; '
              '(3) each limit field and counter is read/written only by its mechanism; (4) each limit comparison has the documented normal form '
              '(depth: height >= L; calls: ++count >= L; recursion: ++iterations > L; search: L permits then one violation). '
-             'NOT decided: that the counters equal the reference depth/count of an arbitrary program (needs an execution model).',
+             'where an adaptor zips its source with the search budget no end-of-input marker is chained onto the source first (the marker would take a permit of its own). NOT decided: that the counters equal the reference depth/count of an arbitrary program (needs an execution model).',
         note='Trusted: rustc MIR; std iterator adaptor semantics (take/chain/once). Unwind paths ignored.',
         technique='static analysis: who-may-call, dominance (must-pass-through), who-reads/writes, comparison normal-form extraction on resolved MIR',
         design='2/C08'),
